@@ -1073,45 +1073,89 @@ Proof.
   eapply ref_root_inj; eauto.
 Qed.
 
-(* the registration loop of ProcessBlock keeps the tree invariant: the proofs registered are exactly,
-   and in the same order, the transactions appended to txs - whatever mix of already delivered / new /
-   irrelevant / mempool-known transactions the block holds *)
-Lemma block_tx_step insync tree unconf mempool txs tx :
-  exists (reg isnew : bool) unconf1 mempool1,
-    block_tx insync (Ok (tree, unconf, mempool, txs)) tx =
-    res_bind (add_hash (if reg then add_merkle_proof tree (fst tx) else tree) (Leaf (fst tx)))
-             (fun t2 => Ok (t2, unconf1, mempool1, if reg then txs ++ [(fst tx, isnew)] else txs)).
+(* removeHash *)
+Lemma remove_hash_fst x l : fst (remove_hash x l) = zmem x l.
 Proof.
-  unfold block_tx. simpl.
-  destruct (remove_hash (fst tx) unconf) as [in_unconf unconf1].
-  destruct (if insync then remove_hash (fst tx) mempool else (false, mempool)) as [in_mempool mempool1].
-  destruct in_unconf.
-  - exists true, false, unconf1, mempool1. reflexivity.
-  - destruct (negb in_mempool && snd tx).
-    + exists true, true, unconf1, mempool1. reflexivity.
-    + exists false, false, unconf1, mempool1. reflexivity.
+  induction l as [|y l IH]; simpl; [reflexivity|].
+  destruct (x =? y); simpl; [reflexivity|]. destruct (remove_hash x l). simpl in *. exact IH.
 Qed.
 
+Lemma remove_hash_other x y l : y <> x -> zmem y (snd (remove_hash x l)) = zmem y l.
+Proof.
+  intros Hne. induction l as [|z l IH]; simpl; [reflexivity|].
+  destruct (x =? z) eqn:E; simpl.
+  - apply Z.eqb_eq in E. subst z. destruct (y =? x) eqn:E2; [apply Z.eqb_eq in E2; contradiction | reflexivity].
+  - destruct (remove_hash x l). simpl in *. rewrite IH. reflexivity.
+Qed.
+
+(* one transaction of the registration loop, with the decision spelled out *)
+Lemma block_tx_step insync tree unconf mempool txs file tx :
+  exists file1,
+    block_tx insync (Ok (tree, unconf, mempool, txs, file)) tx =
+    let sel := select_tx insync unconf mempool tx in
+    res_bind (add_hash (if sel then add_merkle_proof tree (fst tx) else tree) (Leaf (fst tx)))
+             (fun t2 => Ok (t2, snd (remove_hash (fst tx) unconf),
+                            (if insync then snd (remove_hash (fst tx) mempool) else mempool),
+                            txs ++ option_list sel, file1)).
+Proof.
+  unfold block_tx, select_tx. simpl.
+  rewrite <- (remove_hash_fst (fst tx) unconf).
+  destruct (remove_hash (fst tx) unconf) as [in_unconf unconf1]. simpl.
+  destruct insync; simpl.
+  - rewrite <- (remove_hash_fst (fst tx) mempool).
+    destruct (remove_hash (fst tx) mempool) as [in_mempool mempool1]. simpl.
+    destruct in_unconf; [eexists; reflexivity|].
+    destruct in_mempool; simpl; [rewrite andb_false_r, app_nil_r; eexists; reflexivity|].
+    rewrite andb_true_r. destruct (snd tx); simpl; [|rewrite app_nil_r]; eexists; reflexivity.
+  - destruct in_unconf; [eexists; reflexivity|].
+    rewrite andb_true_r. destruct (snd tx); simpl; [|rewrite app_nil_r]; eexists; reflexivity.
+Qed.
+
+(* the registration loop of ProcessBlock keeps the tree invariant: the proofs registered are exactly, and
+   in the same order, the transactions appended to txs - and those are `selected`: whatever mix of already
+   delivered / new / irrelevant / mempool-known transactions the block holds, and WHATEVER THE PER-HEIGHT
+   TX ID FILE ALREADY LISTS (file0 is arbitrary) *)
 Lemma block_fold_inv insync body :
   NoDup (map fst body) ->
-  forall unconf0 mempool0,
-  exists tree unconf mempool txs,
-    fold_left (block_tx insync) body (Ok (new_tree, unconf0, mempool0, [])) = Ok (tree, unconf, mempool, txs) /\
-    tree_inv (map fst body) (map fst txs) tree /\ (map fst txs `sublist_of` map fst body).
+  forall unconf0 mempool0 file0,
+  exists tree unconf mempool file,
+    fold_left (block_tx insync) body (Ok (new_tree, unconf0, mempool0, [], file0))
+      = Ok (tree, unconf, mempool, selected insync unconf0 mempool0 body, file) /\
+    tree_inv (map fst body) (map fst (selected insync unconf0 mempool0 body)) tree /\
+    (forall y, y ∉ map fst body -> zmem y unconf = zmem y unconf0 /\ zmem y mempool = zmem y mempool0).
 Proof.
-  induction body as [|tx body IH] using rev_ind; intros Hn unconf0 mempool0.
-  - exists new_tree, unconf0, mempool0, []. split; [reflexivity|]. split; [apply tree_inv_init | reflexivity].
+  induction body as [|tx body IH] using rev_ind; intros Hn unconf0 mempool0 file0.
+  - exists new_tree, unconf0, mempool0, file0. split; [reflexivity|]. split; [apply tree_inv_init | auto].
   - rewrite map_app in Hn. simpl in Hn.
-    destruct (IH ltac:(apply NoDup_app in Hn as [Hn _]; exact Hn) unconf0 mempool0)
-      as (tree & unconf & mempool & txs & Hf & Hinv & Hsub).
+    destruct (IH ltac:(apply NoDup_app in Hn as [Hn _]; exact Hn) unconf0 mempool0 file0)
+      as (tree & unconf & mempool & file & Hf & Hinv & Hmem).
     rewrite fold_left_app, Hf. cbn [fold_left].
-    destruct (block_tx_step insync tree unconf mempool txs tx) as (reg & isnew & unconf1 & mempool1 & ->).
-    destruct (tree_step _ _ _ (fst tx) reg Hinv Hn) as (t2 & Ha & Hinv2). rewrite Ha. simpl.
-    rewrite map_app. simpl.
-    exists t2, unconf1, mempool1, (if reg then txs ++ [(fst tx, isnew)] else txs).
-    split; [reflexivity|]. destruct reg.
-    + rewrite map_app. split; [exact Hinv2|]. apply sublist_app; [exact Hsub | reflexivity].
-    + rewrite app_nil_r in Hinv2. split; [exact Hinv2|]. apply sublist_inserts_r. exact Hsub.
+    destruct (block_tx_step insync tree unconf mempool (selected insync unconf0 mempool0 body) file tx) as (file1 & ->).
+    assert (Hx : fst tx ∉ map fst body).
+    { apply NoDup_app in Hn as (_ & Hn & _). intros Hin. apply (Hn _ Hin). left. }
+    destruct (Hmem _ Hx) as [Hu Hm].
+    assert (Hsel : select_tx insync unconf mempool tx = select_tx insync unconf0 mempool0 tx).
+    { unfold select_tx. rewrite Hu, Hm. reflexivity. }
+    cbv zeta. rewrite Hsel.
+    set (sel := select_tx insync unconf0 mempool0 tx).
+    destruct (tree_step _ _ _ (fst tx) (if sel then true else false) Hinv Hn) as (t2 & Ha & Hinv2).
+    assert (Hat : add_hash (if sel then add_merkle_proof tree (fst tx) else tree) (Leaf (fst tx)) = Ok t2).
+    { destruct sel; exact Ha. }
+    rewrite Hat. simpl.
+    assert (Hsnoc : selected insync unconf0 mempool0 (body ++ [tx]) = selected insync unconf0 mempool0 body ++ option_list sel).
+    { unfold selected. rewrite omap_app. simpl. fold sel. destruct sel; reflexivity. }
+    rewrite Hsnoc. eexists _, _, _, _. split; [reflexivity|]. split.
+    + rewrite !map_app. simpl.
+      assert (Hm1 : map fst (option_list sel) = if (if sel then true else false) then [fst tx] else []).
+      { subst sel. unfold select_tx. destruct (zmem (fst tx) unconf0); [reflexivity|].
+        destruct (snd tx && negb (insync && zmem (fst tx) mempool0)); reflexivity. }
+      rewrite Hm1. exact Hinv2.
+    + intros y Hy. rewrite map_app in Hy. simpl in Hy.
+      assert (Hy1 : y ∉ map fst body) by (intros H; apply Hy; apply elem_of_app; left; exact H).
+      assert (Hy2 : y <> fst tx) by (intros ->; apply Hy; apply elem_of_app; right; left).
+      destruct (Hmem _ Hy1) as [Hu' Hm']. split.
+      * rewrite remove_hash_other by exact Hy2. exact Hu'.
+      * destruct insync; [rewrite remove_hash_other by exact Hy2|]; exact Hm'.
 Qed.
 
 Lemma final_valid ids r q root pos hid :
@@ -1129,68 +1173,167 @@ Proof.
   - simpl. apply to_u64_small. lia.
 Qed.
 
-
 Lemma index_middle {A} (l1 l2 : list A) x : index (l1 ++ x :: l2) (zlen l1) = Ok x.
 Proof.
   unfold index, zlen. destruct (Z.of_nat (length l1) <? 0) eqn:E; [apply Z.ltb_lt in E; lia|].
   rewrite Nat2Z.id, list_lookup_middle by reflexivity. reflexivity.
 Qed.
 
-Lemma block_events_spec hid hroot ids txs ps :
+(* no transaction that would be delivered as new has a failing output fetch *)
+Definition no_fault (faults : list Z) (txs : list (Z * bool)) : Prop :=
+  Forall (fun tx : Z * bool => snd tx && zmem (fst tx) faults = false) txs.
+
+(* the second pass: whatever is delivered - all of txs, or only a prefix when an output fetch fails - is a
+   right confirmation of the transaction at that position *)
+Lemma block_events_spec hid hroot faults ids txs ps :
   ref_root (map Leaf ids) = Some hroot -> zlen ids < 2 ^ 63 ->
   Forall2 (fun (tx : Z * bool) q => proof_at ids (fst tx) q /\ p_root q = hroot /\ exists pos, wf q pos) txs ps ->
-  forall done, exists evs,
-    block_events (hid, hroot) (done ++ ps) (zlen done) txs = Ok evs /\ Forall2 (conf_ok hid hroot ids) txs evs.
+  forall done, exists evs code,
+    block_events (hid, hroot) faults (done ++ ps) (zlen done) txs = (evs, code) /\
+    Forall2 (conf_ok hid hroot ids) (take (length evs) txs) evs /\
+    (code = OK \/ code = ERR) /\
+    (code = OK -> length evs = length txs) /\
+    (no_fault faults txs -> code = OK).
 Proof.
   intros Hroot Hlen. induction 1 as [|tx q txs ps (Hat & Hr & pos & Hw) _ IH]; intros done.
-  - exists []. split; [reflexivity | constructor].
-  - destruct tx as [txid isnew]. simpl. rewrite index_middle. simpl.
-    destruct (IH (done ++ [q])) as (evs & He & Hall).
-    rewrite <- app_assoc, zlen_app in He. simpl in He. change (zlen [q]) with 1 in He. rewrite He. simpl.
-    eexists. split; [reflexivity|]. constructor; [|exact Hall].
-    destruct (final_valid ids txid q hroot pos hid Hat Hr Hw Hroot Hlen) as [Hv Hci].
-    exists (convert_merkle_proof q (hid, hroot)). simpl fst. simpl snd. rewrite Hv.
-    split; [reflexivity|]. split; [reflexivity|]. rewrite Hci.
-    destruct Hat as (_ & Hi & Hlk). auto.
+  - exists [], OK. split; [reflexivity|]. split; [constructor|]. auto.
+  - destruct tx as [txid isnew]. simpl. rewrite index_middle.
+    destruct (isnew && zmem txid faults) eqn:Ef.
+    + exists [], ERR. split; [reflexivity|]. split; [constructor|]. split; [auto|].
+      split; [discriminate|]. intros Hnf. apply Forall_cons in Hnf as [Hnf _]. simpl in Hnf. congruence.
+    + destruct (IH (done ++ [q])) as (evs & code & He & Hall & Hc & Hlen' & Hnf).
+      rewrite <- app_assoc, zlen_app in He. simpl in He. change (zlen [q]) with 1 in He. rewrite He.
+      eexists _, code. split; [reflexivity|]. split.
+      * simpl. constructor; [|exact Hall].
+        destruct (final_valid ids txid q hroot pos hid Hat Hr Hw Hroot Hlen) as [Hv Hci].
+        exists (convert_merkle_proof q (hid, hroot)). simpl fst. simpl snd. rewrite Hv.
+        split; [reflexivity|]. split; [reflexivity|]. rewrite Hci.
+        destruct Hat as (_ & Hi & Hlk). auto.
+      * split; [exact Hc|]. split.
+        -- intros Hok. simpl. f_equal. apply Hlen'. exact Hok.
+        -- intros H. apply Forall_cons in H as [_ H]. apply Hnf. exact H.
 Qed.
 
 (* A block that passes the three gates of ProcessBlock (not held yet, extends the tip, the block type's
-   IsMerkleRootValid - the textbook root - agrees with the header), txids pairwise distinct:
+   IsMerkleRootValid - the textbook root - agrees with the header), txids pairwise distinct, in ANY state
+   of the node and of its storage (whatever the per-height tx id files already list, e.g. after a crash in
+   the middle of an earlier processing of the same block) and under any output-fetch faults:
    - the streaming root equals the header's root, so the second comparison (which would come after the
      header was added and announced) never fails,
-   - the header is added, announced, and every transaction selected by the loop gets, in block order,
-     one notification of the right kind carrying the header, depth zero, the transaction's true index and
-     a proof the client verifier accepts. *)
+   - the header is added and announced; the transactions to notify are `selected` (independent of the
+     files); what is delivered is, in block order, a prefix of them - all of them when no output fetch
+     fails - each notification of the right kind, carrying the header, depth zero, the transaction's true
+     index and a proof the client verifier accepts. *)
+Theorem processed_block s hid prev hroot body :
+  NoDup (map fst body) -> zlen body < 2 ^ 63 ->
+  existsb (fun h => fst h =? hid) (n_chain s) || (hid =? 0) = false ->
+  prev = n_tip s ->
+  is_merkle_root_valid hroot (map fst body) = true ->
+  let txs := selected (n_insync s) (n_unconf s) (n_mempool s) body in
+  exists s' code evs,
+    process_block s hid prev hroot body false = (s', code, EHeaders (n_height s + 1) hid :: evs) /\
+    n_chain s' = (hid, hroot) :: n_chain s /\
+    Forall2 (conf_ok hid hroot (map fst body)) (take (length evs) txs) evs /\
+    (code = OK \/ code = ERR) /\
+    (no_fault (n_faults s) txs -> code = OK /\ length evs = length txs).
+Proof.
+  intros Hn Hlen Hfresh Hprev Hgate txs. unfold process_block.
+  rewrite Hfresh, Hprev, Z.eqb_refl, Hgate. simpl negb. cbv iota.
+  unfold is_merkle_root_valid in Hgate.
+  destruct (ref_root (map Leaf (map fst body))) as [r|] eqn:Hroot; [|discriminate].
+  apply mnode_eqb_eq in Hgate. subst r.
+  destruct (block_fold_inv (n_insync s) body Hn (n_unconf s) (n_mempool s)
+              (get_file (zlen ((hid, hroot) :: n_chain s)) (n_txfiles s)))
+    as (tree & unconf & mempool & file & Hf & Hinv & _).
+  cbv zeta. rewrite Hf.
+  assert (Hne : map fst body <> []).
+  { intros E. rewrite E in Hroot. discriminate. }
+  destruct (finalize_spec _ _ _ Hinv Hne Hn) as (root & ps & Hfin & Hroot2 & Hall).
+  rewrite Hroot in Hroot2. injection Hroot2 as <-.
+  rewrite Hfin, mnode_eqb_refl. simpl negb. cbv iota.
+  fold txs in Hall |- *.
+  assert (Hall' : Forall2 (fun (tx : Z * bool) q => proof_at (map fst body) (fst tx) q /\ p_root q = hroot /\ exists pos, wf q pos) txs ps).
+  { apply Forall2_fmap_l in Hall. exact Hall. }
+  destruct (block_events_spec hid hroot (n_faults s) (map fst body) txs ps Hroot ltac:(rewrite zlen_map; exact Hlen) Hall' [])
+    as (evs & code & He & Hev & Hc & Hl & Hnf).
+  change (zlen (@nil mproof)) with 0 in He. change ([] ++ ps) with ps in He. rewrite He.
+  assert (Hh : zlen ((hid, hroot) :: n_chain s) = n_height s + 1).
+  { unfold n_height, zlen. simpl length. lia. }
+  rewrite Hh.
+  destruct (code =? OK) eqn:Ec.
+  - eexists _, OK, evs. split; [reflexivity|]. split; [reflexivity|]. split; [exact Hev|].
+    split; [auto|]. intros _. apply Z.eqb_eq in Ec. auto.
+  - eexists _, code, evs. split; [reflexivity|]. split; [reflexivity|]. split; [exact Hev|].
+    split; [exact Hc|]. intros H. specialize (Hnf H). subst code. discriminate.
+Qed.
+
+(* the complete case, as a statement of its own: no output fetch fails *)
 Theorem accepted_block s hid prev hroot body :
   NoDup (map fst body) -> zlen body < 2 ^ 63 ->
   existsb (fun h => fst h =? hid) (n_chain s) || (hid =? 0) = false ->
   prev = n_tip s ->
   is_merkle_root_valid hroot (map fst body) = true ->
-  exists unconf mempool txs evs,
-    process_block s hid prev hroot body false =
-      (NS ((hid, hroot) :: n_chain s) unconf mempool (n_insync s), OK, EHeaders (n_height s + 1) hid :: evs) /\
-    Forall2 (conf_ok hid hroot (map fst body)) txs evs /\
-    (map fst txs `sublist_of` map fst body).
+  let txs := selected (n_insync s) (n_unconf s) (n_mempool s) body in
+  no_fault (n_faults s) txs ->
+  exists s' evs,
+    process_block s hid prev hroot body false = (s', OK, EHeaders (n_height s + 1) hid :: evs) /\
+    n_chain s' = (hid, hroot) :: n_chain s /\
+    Forall2 (conf_ok hid hroot (map fst body)) txs evs.
 Proof.
-  intros Hn Hlen Hfresh Hprev Hgate. unfold process_block.
-  rewrite Hfresh, Hprev, Z.eqb_refl, Hgate. simpl.
-  unfold is_merkle_root_valid in Hgate.
-  destruct (ref_root (map Leaf (map fst body))) as [r|] eqn:Hroot; [|discriminate].
-  apply mnode_eqb_eq in Hgate. subst r.
-  destruct (block_fold_inv (n_insync s) body Hn (n_unconf s) (n_mempool s))
-    as (tree & unconf & mempool & txs & Hf & Hinv & Hsub).
-  rewrite Hf.
-  assert (Hne : map fst body <> []).
-  { intros E. rewrite E in Hroot. discriminate. }
-  destruct (finalize_spec _ _ _ Hinv Hne Hn) as (root & ps & Hfin & Hroot2 & Hall).
-  rewrite Hroot in Hroot2. injection Hroot2 as <-.
-  rewrite Hfin, mnode_eqb_refl. simpl.
-  assert (Hall' : Forall2 (fun (tx : Z * bool) q => proof_at (map fst body) (fst tx) q /\ p_root q = hroot /\ exists pos, wf q pos) txs ps).
-  { apply Forall2_fmap_l in Hall. exact Hall. }
-  destruct (block_events_spec hid hroot (map fst body) txs ps Hroot ltac:(rewrite zlen_map; exact Hlen) Hall' [])
-    as (evs & He & Hev).
-  change (zlen (@nil mproof)) with 0 in He. change ([] ++ ps) with ps in He. rewrite He.
-  exists unconf, mempool, txs, evs. split.
-  - unfold n_height, zlen. simpl length. rewrite Nat2Z.inj_succ. unfold Z.succ. reflexivity.
-  - split; [exact Hev | exact Hsub].
+  intros Hn Hlen Hfresh Hprev Hgate txs Hnf.
+  destruct (processed_block s hid prev hroot body Hn Hlen Hfresh Hprev Hgate) as (s' & code & evs & Hp & Hc & Hev & _ & Hok).
+  destruct (Hok Hnf) as [-> Hl]. exists s', evs. split; [exact Hp|]. split; [exact Hc|].
+  fold txs in Hev, Hl. rewrite Hl, firstn_all in Hev. exact Hev.
+Qed.
+
+(* the registration loop does not read the per-height file: forgetting the file component commutes *)
+Definition drop_file (st : res (mtree * list Z * list Z * list (Z * bool) * list Z))
+  : res (mtree * list Z * list Z * list (Z * bool)) :=
+  match st with Ok (t, u, m, x, _) => Ok (t, u, m, x) | Err e => Err e | Panic => Panic end.
+
+Lemma block_tx_drop_file insync st1 st2 tx :
+  drop_file st1 = drop_file st2 -> drop_file (block_tx insync st1 tx) = drop_file (block_tx insync st2 tx).
+Proof.
+  destruct st1 as [[[[[t1 u1] m1] x1] f1]|e1|], st2 as [[[[[t2 u2] m2] x2] f2]|e2|]; intros H; simpl in H;
+    try discriminate; try reflexivity; try (injection H as ->; reflexivity).
+  injection H as -> -> -> ->.
+  destruct (block_tx_step insync t2 u2 m2 x2 f1 tx) as (g1 & E1).
+  destruct (block_tx_step insync t2 u2 m2 x2 f2 tx) as (g2 & E2).
+  rewrite E1, E2. cbv zeta. destruct (add_hash _ _); reflexivity.
+Qed.
+
+Lemma block_fold_drop_file insync body : forall st1 st2,
+  drop_file st1 = drop_file st2 ->
+  drop_file (fold_left (block_tx insync) body st1) = drop_file (fold_left (block_tx insync) body st2).
+Proof.
+  induction body as [|tx body IH]; intros st1 st2 H; [exact H|].
+  simpl. apply IH. apply block_tx_drop_file. exact H.
+Qed.
+
+(* ALIGNMENT FOR REPROCESSED BLOCKS.  Two node states that differ ONLY in what the per-height tx id files
+   already list (s2 = s with other files - say the files a crash in the middle of the first processing of
+   this very block left behind) give the same outcome class and the same notifications for the block. *)
+Theorem reprocessed_block_aligned s hid prev hroot body files :
+  let s2 := NS (n_chain s) (n_unconf s) (n_mempool s) (n_insync s) (n_saved_chain s) (n_saved_unconf s) files (n_faults s) in
+  snd (fst (process_block s2 hid prev hroot body false)) = snd (fst (process_block s hid prev hroot body false)) /\
+  snd (process_block s2 hid prev hroot body false) = snd (process_block s hid prev hroot body false).
+Proof.
+  intros s2. unfold process_block.
+  change (n_chain s2) with (n_chain s). change (n_tip s2) with (n_tip s). change (n_insync s2) with (n_insync s).
+  change (n_unconf s2) with (n_unconf s). change (n_mempool s2) with (n_mempool s). change (n_faults s2) with (n_faults s).
+  destruct (existsb _ _ || _); [auto|].
+  destruct (negb (prev =? n_tip s)); [auto|].
+  destruct (negb _); [auto|]. cbv zeta.
+  pose proof (block_fold_drop_file (n_insync s) body
+                (Ok (new_tree, n_unconf s, n_mempool s, [], get_file (zlen ((hid, hroot) :: n_chain s)) (n_txfiles s2)))
+                (Ok (new_tree, n_unconf s, n_mempool s, [], get_file (zlen ((hid, hroot) :: n_chain s)) (n_txfiles s)))
+                eq_refl) as H.
+  destruct (fold_left _ body (Ok (_, _, _, _, get_file _ (n_txfiles s2)))) as [[[[[t2 u2] m2] x2] f2]|e2|];
+    destruct (fold_left _ body (Ok (_, _, _, _, get_file _ (n_txfiles s)))) as [[[[[t1 u1] m1] x1] f1]|e1|];
+    simpl in H; try discriminate; auto.
+  injection H as -> -> -> ->.
+  destruct (finalize t1) as [[root ps]| |]; auto.
+  destruct (negb _); auto.
+  destruct (block_events _ _ _ _ _) as [evs code].
+  destruct (code =? OK); auto.
 Qed.
